@@ -106,7 +106,7 @@ static Call parse_call(Args& a)
 	c.ncalls = (int) a.i64();
 	c.fid	 = (int) a.i64();
 	c.p		 = a.dbls();
-	if((int) c.region.size() != 2 * c.d)
+	if((int) c.region.size() != 2 * c.d && c.d != 0)	  // d == 0 marks a guard probe: the region is passed on as it is
 		throw BadArgs("region size");
 	return c;
 }
